@@ -1,4 +1,4 @@
-HOOK_COMMITS = []
+HOOK_COMMITS = ["78b77a3 verif hook H3: record the conditional-inclusion state before every directive"]
 ENGINES = [
     {"name": "e1-enumerate", "path": "harness/src/engine.rs", "serves_properties": [], "kind_free_text": "stateless bounded-exhaustive enumeration of inputs over the real code against a reference model / relational oracle"},
     {"name": "e2-bfs", "path": "harness/src/engine.rs", "serves_properties": [], "kind_free_text": "explicit-state breadth-first search over the real transition function with canonical state deduplication"},
@@ -11,3 +11,8 @@ CLAIMED.append(check("C10", "exploration",
   "Bounded-exhaustive enumeration through the real lexer: every text t1 s1 t2 s2 (full token alphabet, 9 trivia kinds) and t1 s1 t2 s2 t3 (class alphabet) must have spans that tile the file and unlex back to the source; every digit string of <=4 digits per radix x 13 suffixes plus 2^k+-1/10^k families must lex to its exact value or be rejected when >= 2^64; every float spelling I.FeX S with <=4 significant digits, every exponent -330..310 and every suffix (thorough: 3.9e8 spellings) plus a 17/20-digit binade-boundary family must lex to the nearest double (narrowed once for f/h); thinned spellings are followed through compile() to the emitted HLSL. All cases within the bound are enumerated, none sampled.",
   "Trusts Rust's str::parse::<f64> as the correctly rounded reference and u128::from_str_radix for integers. Spellings with >4 significant digits only via the hard family; '.5'-style and strings with more than 3 tokens are outside the bound.",
   "bounded exhaustive input enumeration against reference lexing/number models (stateless model checking of the lexer)", "DESIGN.md section 5 C10", "e1-enumerate"))
+
+CLAIMED.append(check("C11", "model_checking",
+  "Explicit-state BFS over directive histories: each transition appends one of 13 directive letters and re-runs the real preprocessor; the state is the real ConditionChain + macro table (hook H3) paired with a C conditional-inclusion model, deduplicated on the pair; on every transition the active flag, chain depth, defined set, surviving text (end-to-end through preprocess+unlex with a closing suffix) and the unmatched/unterminated errors must agree with the model. Depth 9 quick / 12 thorough, plus every directive sequence of length <= 5/6 end to end, plus every condition string operand (op operand){0..3} with !/!! prefixes and every parenthesised group against a u64 precedence evaluator.",
+  "The reference model and evaluator are ours (C11 6.10.1 restricted to the operators rssl supports). Histories that C makes ill-formed without the property listing them (second #else, #elif after #else) are only required not to panic.",
+  "explicit-state BFS over the real transition function with reference-model conformance on every transition", "DESIGN.md section 5 C11", "e2-bfs"))
